@@ -286,12 +286,12 @@ def load_cases(path):
 # ----------------------------------------------------------------------------
 # step 4: evaluate the model on the cases inside Coq
 def _coq_eval_shard(args):
-    idx, header, items, workdir = args
+    idx, header, items, workdir, case_type = args
     name = "Cases_%03d" % idx
     path = os.path.join(workdir, name + ".v")
     with open(path, "w") as f:
         f.write(header + "\n")
-        f.write("Definition cases : list case := [\n")
+        f.write("Definition cases : list %s := [\n" % case_type)
         f.write(";\n".join(items))
         f.write("\n].\n")
         f.write("Definition M := Eval vm_compute in (mismatches cases).\nPrint M.\n")
@@ -317,13 +317,13 @@ def _coq_eval_shard(args):
     return idx, grab("M"), grab("V"), None, time.time() - t0
 
 
-def coq_eval_cases(run_module, cases, shard_size=400, extra_header=""):
+def coq_eval_cases(run_module, cases, shard_size=400, extra_header="", case_type="case"):
     """returns (mismatch_indices, violation_indices, errors)"""
     workdir = tempfile.mkdtemp(prefix="cases_", dir=BUILD)
     header = "From Whawty Require Import Bytes.\nFrom WhawtyRun Require Import %s.\nOpen Scope N_scope.\n%s" % (run_module, extra_header)
     shards = []
     for i in range(0, len(cases), shard_size):
-        shards.append((i // shard_size, header, [c["coq"] for c in cases[i:i + shard_size]], workdir))
+        shards.append((i // shard_size, header, [c["coq"] for c in cases[i:i + shard_size]], workdir, case_type))
     mism, viol, errors = [], [], []
     with concurrent.futures.ThreadPoolExecutor(max_workers=16) as ex:
         for idx, m, v, err, dt in ex.map(_coq_eval_shard, shards):
